@@ -479,6 +479,39 @@ Proof.
   apply attr80_loop_inv in Hb. apply safe_sl; lia.
 Qed.
 
+(* ---------------- RADIUS / CoA byte handling, IPoE option accessors, L2TP PPP frame dispatch ---------------- *)
+Lemma find_attr80_inv raw off : find_attr80 raw = Ok (Some off) -> off + 16 <= lenN raw /\ 20 <= lenN raw.
+Proof.
+  unfold find_attr80. destruct (lenN raw <? 20) eqn:E; [discriminate|]. intros H.
+  apply attr80_loop_inv in H. lia.
+Qed.
+Lemma is_authentic_reply_total raw d1 d2 : safe (is_authentic_reply raw d1 d2).
+Proof.
+  unfold is_authentic_reply. safe_tac; try apply find_attr80_total.
+  all: subst; match goal with H : find_attr80 _ = Ok (Some _) |- _ => apply find_attr80_inv in H end; apply safe_sl; lia.
+Qed.
+Lemma validate_request_auth_total raw d : safe (validate_request_auth raw d).
+Proof. unfold validate_request_auth. safe_tac. Qed.
+Lemma validate_message_auth_total raw d : safe (validate_message_auth raw d).
+Proof.
+  unfold validate_message_auth. safe_tac; try apply find_attr80_total.
+  all: subst; match goal with H : find_attr80 _ = Ok (Some _) |- _ => apply find_attr80_inv in H end; apply safe_sl; lia.
+Qed.
+(* the trim in the CoA read loop is safe exactly under what radius.Parse guarantees for an accepted datagram *)
+Lemma coa_trim_total raw :
+  4 <= lenN raw -> (forall l, (s <- sl 2 4 raw;; u16at 0 s) = Ok l -> l <= lenN raw) -> safe (coa_trim raw).
+Proof. intros H4 Hl. unfold coa_trim. safe_tac. apply safe_sl; [lia|]. apply Hl. assumption. Qed.
+Lemma coa_trim_needs_parse : exists raw, coa_trim raw = Panic.
+Proof. exists [43; 1; 0; 30; 0]. vm_compute. reflexivity. Qed.
+Lemma has_service_type_total value l : safe (has_service_type value l).
+Proof. induction l as [|[t v] r IH]; cbn [has_service_type]; [reflexivity|]. safe_tac; exact IH. Qed.
+Lemma event_timestamp_total l : safe (event_timestamp l).
+Proof. induction l as [|[t v] r IH]; cbn [event_timestamp]; [reflexivity|]. safe_tac; exact IH. Qed.
+Lemma ipoe_msg_type_total l : safe (ipoe_msg_type l).
+Proof. induction l as [|[t v] r IH]; cbn [ipoe_msg_type]; [reflexivity|]. safe_tac; exact IH. Qed.
+Lemma l2tp_dispatch_ppp_total cfg frame : safe (l2tp_dispatch_ppp Repaired cfg frame).
+Proof. unfold l2tp_dispatch_ppp. safe_tac; apply handle_frame_total. Qed.
+
 (* ---------------- the driver-level statement ---------------- *)
 Lemma run_total entry na ba : safe (run Repaired entry na ba).
 Proof.
@@ -492,7 +525,9 @@ Proof.
                  |apply relay_unwrap_reply_total|apply relay_txid_total|apply insert_option82_total
                  |apply strip_option82_total|apply set_option4_total|apply get_option4_total
                  |apply parse_sub82_total|apply dhcp_parse_total|apply parse_message4_total
-                 |apply attr80_window_total]]|]).
+                 |apply attr80_window_total|apply is_authentic_reply_total|apply validate_request_auth_total
+                 |apply validate_message_auth_total|apply l2tp_dispatch_ppp_total]
+            | cbv zeta; safe_tac; first [apply has_service_type_total|apply event_timestamp_total|apply ipoe_msg_type_total]]|]).
   reflexivity.
 Qed.
 
